@@ -61,7 +61,7 @@ def check(model, R, tier):
     for q, why in problems:
         R.incomplete_at('C11.WRAPPER-PURE', q, why)
     # ---- KERNEL-PURE
-    kfuncs = [f for m in KMODS for f in model.module_functions(m)]
+    kfuncs = [f for m in KMODS for f in model.module_functions(m) if not f.inlined_everywhere]
     R.rule('C11.KERNEL-PURE', 'no kernel of cpu_ops.py / conv_tools.py performs an in-place effect on a value that may alias one of its parameters (may-alias abstract interpretation, '
                               'interprocedural through repo callees)', floor=95)
     pure_scan(model, R, 'C11.KERNEL-PURE', kfuncs)
@@ -84,7 +84,7 @@ def check(model, R, tier):
             del model.funcs[q]
     # ---- WRITERS of .data, package wide
     R.rule('C11.WRITERS', 'Tensor.data is written only by the constructor, optimizer steps, nn.init fillers and batch_norm running statistics', floor=12)
-    for fn in model.funcs.values():
+    for fn in [f_ for f_ in model.funcs.values() if not f_.inlined_everywhere]:
         if fn.mod.modname == 'synapgrad.visual.graph':
             continue
         for n in body_walk(fn.node):
